@@ -18,6 +18,12 @@ import (
 
 func init() { runners["C14"] = runC14 }
 
+// bytesSourceUnresumed is a savior.SeekSource the callee will Resume itself.
+func bytesSourceUnresumed(b []byte) savior.SeekSource { return seeksource.FromBytes(b) }
+
+// bytesSourceUnresumedResumed: ReadSignature expects a source that was already resumed.
+func bytesSourceUnresumedResumed(b []byte) savior.SeekSource { return bytesSource(b) }
+
 // bytesSource is a resumed savior.SeekSource over a byte slice.
 func bytesSource(b []byte) savior.SeekSource {
 	s := seeksource.FromBytes(b)
